@@ -129,7 +129,7 @@ int main(int argc, char **argv) {
     auto phf = m.request_halfface_property<int>("ovm_ghost_hf", GD);
     auto pc = m.request_cell_property<int>("ovm_ghost_c", GD);
     set_prop(pv, gv); set_prop(pe, ge); set_prop(phe, ghe); set_prop(pf, gf); set_prop(phf, ghf); set_prop(pc, gc);
-    int ret = 0, ret2 = 0; bool exc = false;
+    int ret = 0, ret2 = 0; bool exc = false; std::vector<int> retlist;
     try {
         int a = args[0], b = args[1];
         if (op == "swap_cell") m.swap_cell_indices(CH(a), CH(b));
@@ -160,6 +160,32 @@ int main(int argc, char **argv) {
         else if (op == "enable_e") m.enable_edge_bottom_up_incidences(a != 0);
         else if (op == "enable_f") m.enable_face_bottom_up_incidences(a != 0);
         else if (op == "reorder") ovm_verif::Access::reorder(m, a);
+        else if (op == "find_halfedge") ret = m.find_halfedge(VH(a), VH(b)).idx();
+        else if (op == "find_halfedge_in_cell") ret = m.find_halfedge_in_cell(VH(a), VH(b), CH(args[2])).idx();
+        else if (op == "find_halfface_v") { std::vector<VH> l; for (int v : extra) l.push_back(VH(v)); ret = m.find_halfface(l).idx(); }
+        else if (op == "find_halfface_he") { std::vector<HEH> l; for (int v : extra) l.push_back(HEH(v)); ret = m.find_halfface(l).idx(); }
+        else if (op == "find_halfface_extensive") { std::vector<VH> l; for (int v : extra) l.push_back(VH(v)); ret = m.find_halfface_extensive(l).idx(); }
+        else if (op == "find_halfface_in_cell") { std::vector<VH> l; for (int v : extra) l.push_back(VH(v)); ret = m.find_halfface_in_cell(l, CH(a)).idx(); }
+        else if (op == "get_halfface_vertices") { for (auto v : m.get_halfface_vertices(HFH(a))) retlist.push_back(v.idx()); }
+        else if (op == "get_halfface_vertices_vh") { for (auto v : m.get_halfface_vertices(HFH(a), VH(b))) retlist.push_back(v.idx()); }
+        else if (op == "get_halfface_vertices_heh") { for (auto v : m.get_halfface_vertices(HFH(a), HEH(b))) retlist.push_back(v.idx()); }
+        else if (op == "is_incident") ret = m.is_incident(FH(a), EH(b));
+        else if (op == "n_vertices_in_cell") ret = (int)m.n_vertices_in_cell(CH(a));
+        else if (op == "next_halfedge_in_halfface") ret = m.next_halfedge_in_halfface(HEH(a), HFH(b)).idx();
+        else if (op == "prev_halfedge_in_halfface") ret = m.prev_halfedge_in_halfface(HEH(a), HFH(b)).idx();
+        else if (op == "prev_next") ret = m.prev_halfedge_in_halfface(m.next_halfedge_in_halfface(HEH(a), HFH(b)), HFH(b)).idx();
+        else if (op == "halfface_view") { for (auto h : m.halfface(HFH(a)).halfedges()) retlist.push_back(h.idx()); }
+        else if (op == "halfedge_view") { auto e = m.halfedge(HEH(a)); retlist.push_back(e.from_vertex().idx()); retlist.push_back(e.to_vertex().idx()); }
+        else if (op == "incident_cell") ret = m.incident_cell(HFH(a)).idx();
+        else if (op == "valence_v") ret = (int)m.valence(VH(a));
+        else if (op == "valence_e") ret = (int)m.valence(EH(a));
+        else if (op == "is_boundary_hf") ret = m.is_boundary(HFH(a));
+        else if (op == "is_boundary_f") ret = m.is_boundary(FH(a));
+        else if (op == "is_boundary_e") ret = m.is_boundary(EH(a));
+        else if (op == "is_boundary_he") ret = m.is_boundary(HEH(a));
+        else if (op == "is_boundary_v") ret = m.is_boundary(VH(a));
+        else if (op == "is_boundary_c") ret = m.is_boundary(CH(a));
+        else if (op == "adjacent_halfface_in_cell") ret = m.adjacent_halfface_in_cell(HFH(a), HEH(b)).idx();
         else if (op == "none") {}
         else { fprintf(stderr, "unknown op %s\n", op.c_str()); return 2; }
     } catch (std::exception &e) { exc = true; }
@@ -170,5 +196,6 @@ int main(int argc, char **argv) {
     printf("POST %d %d %d %d %d %d %d %d %zu", LV, LE, LF, LC, LFV, LCV, LOUT, LINC, out.size());
     for (int v : out) printf(" %d", v);
     printf("\n");
+    printf("RETLIST"); for (int v : retlist) printf(" %d", v); printf("\n");
     return 0;
 }
